@@ -229,6 +229,17 @@ def _void_dict(U):
         s_ = dadd(a, b)
         U.ensure("ResultDict +: key-wise", set(s_.results) == {"p", "q"} and _valid(s_.results["p"].t == sreal("ap") + sreal("bp")) and _valid(s_.results["q"].t == sreal("aq") + sreal("bq")))
         U.ensure("ResultDict: 0 and None neutral", dadd(a, 0) is a and dadd(a, None) is a)
+        # the key is what pairs the entries -- not the position in the dictionaries (dictionaries of two runs need not be filled in the same order)
+        for perm in itertools.permutations(("p", "q", "r")):
+            a3 = RD({k: X(sreal("a" + k)) for k in ("p", "q", "r")}, save_mode={"bin"})
+            b3 = RD({k: X(sreal("b" + k)) for k in perm}, save_mode={"bin"})
+            s3, d3 = dadd(a3, b3), dsub(a3, b3)
+            U.ensure("ResultDict + and -: entries paired by key when the operand was filled in the order %s" % "".join(perm),
+                     set(s3.results) == {"p", "q", "r"} and all(_valid(s3.results[k].t == sreal("a" + k) + sreal("b" + k)) and _valid(d3.results[k].t == sreal("a" + k) - sreal("b" + k)) for k in "pqr"))
+        b4 = RD({"z": X(sreal("bz")), "p": X(sreal("bp"))}, save_mode={"bin"})
+        s4 = dadd(a, b4)
+        U.ensure("ResultDict +: with as many but partly different keys, a common key is still paired by name and nothing is paired by position",
+                 "p" in s4.results and _valid(s4.results["p"].t == sreal("ap") + sreal("bp")) and all(k == "p" for k in s4.results))
 
         def same(r_):
             return set(r_.results) == {"p", "q"} and _valid(r_.results["p"].t == sreal("ap")) and _valid(r_.results["q"].t == sreal("aq"))
